@@ -343,6 +343,31 @@ def path_conds(ctx: Ctx, f: Func, node: ast.AST, _depth: int = 0) -> List[Tuple[
             st = parent_of(flags[0].expr)
             if not isinstance(st, (ast.Assign, ast.AnnAssign)):
                 continue
+            if parent_of(st) is top:
+                # the flag starts as None (falsy) unconditionally and is overwritten where something is wrong: it still is
+                # None, so none of the overwriting assignments ran - the conditions of each of them do not all hold
+                others = [parent_of(b.expr) for b in bs if b is not flags[0]]
+                if all(isinstance(o_, (ast.Assign, ast.AnnAssign)) and getattr(o_, "lineno", 0) > getattr(st, "lineno", 0) for o_ in others):
+                    looped = False
+                    for o_ in others:
+                        q = parent_of(o_)
+                        while q is not None and q is not top:
+                            if isinstance(q, (ast.For, ast.While, ast.comprehension)):
+                                looped = True
+                            q = parent_of(q)
+                    if not looped:
+                        for o_ in others:
+                            cs_ = path_conds(ctx, f, o_, _depth=_depth + 1)
+                            if len(cs_) == 1:
+                                out.append((cs_[0][0], not cs_[0][1]))
+                            elif cs_:
+                                vals_ = [a_ if p_ else ast.UnaryOp(op=ast.Not(), operand=a_) for a_, p_ in cs_]
+                                conj_ = ast.BoolOp(op=ast.And(), values=vals_)
+                                ast.copy_location(conj_, o_)
+                                for v_ in vals_:
+                                    ast.copy_location(v_, o_)
+                                out.append((conj_, False))
+                continue
             # the assignment is not inside a loop (its last execution is its only one)
             q = parent_of(st)
             in_loop = False
@@ -355,7 +380,7 @@ def path_conds(ctx: Ctx, f: Func, node: ast.AST, _depth: int = 0) -> List[Tuple[
             for a_, p_ in path_conds(ctx, f, st, _depth=_depth + 1):
                 out.append((a_, p_))
     # unit resolution: not (A and B) with A known -> not B;  (A or B) with not A known -> B
-    for _ in range(3):
+    for _ in range(8):
         known = {(norm(e), pol) for e, pol in out}
         added = False
         for e, pol in list(out):
